@@ -129,3 +129,48 @@ Definition start_span (s : sampler) (explicit : span_ctx) (gen_tid : bytes) (gen
   let flags := Z.land flags1 c12_kAllW3CTraceContext1Flags in
   let ts := match snd r with Some h => h | None => if valid then c_ts parent else ts_default end in
   mk_started tid flags ts (is_recording (fst r)).
+
+(* ------------------------------------------------------------------ Tracer::StartSpan, choice of the parent
+   (tracer.cc: parent_context = GetCurrentSpan()->GetContext(); then StartSpanOptions::parent, a
+   variant<SpanContext, context::Context>, may replace it).  [active] = GetCurrentSpan()->GetContext(): the span held by
+   the thread's current context, SpanContext::GetInvalid() when it holds none.  A context::Context given as parent is
+   seen through trace::GetSpan(context)->GetContext() ([None] = it holds no span: the invalid default span) and
+   trace::IsRootSpan(context) (the kIsRootSpanKey marker, true only when set to true). *)
+Inductive parent_arg :=
+| PaSpanContext (c : span_ctx)
+| PaContext (span : option span_ctx) (marker : bool).
+
+Definition span_in (o : option span_ctx) : span_ctx := match o with Some c => c | None => ctx_invalid end.
+
+Definition tracer_parent (active : span_ctx) (a : parent_arg) : span_ctx :=
+  match a with
+  | PaSpanContext c => if ctx_valid c then c else active
+  | PaContext sp marker =>
+      if ctx_valid (span_in sp) then span_in sp          (* a valid span in the context is the parent, marker or not *)
+      else if marker then ctx_invalid                    (* SpanContext{false, false} *)
+      else active
+  end.
+
+(* the rest of StartSpan once the parent context is chosen (same steps as [start_span]) *)
+Definition start_span_at (s : sampler) (parent : span_ctx) (gen_tid : bytes) (gen_random : bool) (x : extra) : started :=
+  let valid := ctx_valid parent in
+  let tid := if valid then c_tid parent else gen_tid in
+  let flags0 := if valid then Z.of_N (b2n (c_flags parent)) else if gen_random then c12_kIsRandom else 0 in
+  let r := should_sample s parent tid x in
+  let flags1 := if is_sampled (fst r) then Z.lor flags0 c12_kIsSampled
+                else Z.land flags0 (255 - c12_kIsSampled) in
+  let flags := Z.land flags1 c12_kAllW3CTraceContext1Flags in
+  let ts := match snd r with Some h => h | None => if valid then c_ts parent else ts_default end in
+  mk_started tid flags ts (is_recording (fst r)).
+
+(* the thread's current context holds [cur_span]; options.parent = [a] *)
+Definition start_span_cx (s : sampler) (cur_span : option span_ctx) (a : parent_arg)
+                         (gen_tid : bytes) (gen_random : bool) (x : extra) : started :=
+  start_span_at s (tracer_parent (span_in cur_span) a) gen_tid gen_random x.
+
+(* how often the tracer's ParentBased sampler calls its own delegate (the root sampler) for this span; 0 for other samplers *)
+Definition root_sampler_calls (s : sampler) (cur_span : option span_ctx) (a : parent_arg) : Z :=
+  match s with
+  | SParent _ => delegate_calls (tracer_parent (span_in cur_span) a)
+  | _ => 0
+  end.
